@@ -24,6 +24,16 @@ pub struct Ask {
     delay_ms: u64,
 }
 
+/// A request whose reply is `size` bytes, each `id as u8`: larger than the initial HTTP/2 window it needs several flights,
+/// so that a fault can strike between the response head and the end of the body.
+#[repr(C)]
+#[derive(Serialize, Deserialize, Archive, PartialEq, Debug)]
+#[archive(check_bytes)]
+pub struct Fetch {
+    id: u64,
+    size: u32,
+}
+
 type Log = Arc<Mutex<Vec<String>>>;
 
 pub struct Svc {
@@ -34,6 +44,7 @@ pub struct Svc {
 impl RpcService for Svc {
     fn register_handlers(registry: &mut ServiceRegistry<Self>) {
         registry.add_handler::<Ask>();
+        registry.add_handler::<Fetch>();
     }
 }
 
@@ -50,6 +61,91 @@ impl Handler<Ask> for Svc {
         self.log.lock().unwrap().push(format!("E:{}:{}", ask.id, self.epoch.elapsed().as_millis()));
         Ok(ask.id * 7 + 3)
     }
+}
+
+#[datacake_rpc::async_trait]
+impl Handler<Fetch> for Svc {
+    type Reply = Vec<u8>;
+
+    async fn on_message(&self, msg: Request<Fetch>) -> Result<Self::Reply, Status> {
+        let (id, size): (u64, u32) = (msg.id.into(), msg.size.into());
+        self.log.lock().unwrap().push(format!("B:{}:{}", id, self.epoch.elapsed().as_millis()));
+        self.log.lock().unwrap().push(format!("E:{}:{}", id, self.epoch.elapsed().as_millis()));
+        Ok(vec![id as u8; size as usize])
+    }
+}
+
+/// runbig <timeout_ms> <reply size> <fault H|P|-> <fault at ms after the request was sent>
+/// One client, link latency pinned to 10 ms: a small request sets the connection up, then ONE request with a large reply is
+/// sent and the fault strikes `at` ms later (request arrives at +10, response head and first flight at +20).  A call that has
+/// not returned 30 simulated seconds later is recorded as `D:<id>:other:<t>`.
+fn runbig(t: &[&str]) -> String {
+    let timeout_ms: u64 = t[1].parse().unwrap();
+    let size: u32 = t[2].parse().unwrap();
+    let fault = t[3].chars().next().unwrap();
+    let fault_at: u64 = t[4].parse().unwrap();
+    let log: Log = Arc::new(Mutex::new(Vec::new()));
+    let mut sim = Builder::new()
+        .simulation_duration(Duration::from_secs(120))
+        .min_message_latency(Duration::from_millis(10))
+        .max_message_latency(Duration::from_millis(10))
+        .build();
+    let slog = log.clone();
+    sim.host("server", move || {
+        let slog = slog.clone();
+        async move {
+            let server = Server::listen((IpAddr::from(Ipv4Addr::UNSPECIFIED), PORT).into()).await?;
+            server.add_service(Svc { log: slog, epoch: tokio::time::Instant::now() });
+            tokio::time::sleep(Duration::from_secs(110)).await;
+            Ok(())
+        }
+    });
+    let clog = log.clone();
+    sim.client("client0", async move {
+        let start = tokio::time::Instant::now();
+        let addr: SocketAddr = (lookup("server"), PORT).into();
+        let mut client = RpcClient::<Svc>::new(Channel::connect(addr));
+        if timeout_ms > 0 {
+            client.set_timeout(Duration::from_millis(timeout_ms));
+        }
+        tokio::time::sleep(Duration::from_millis(50)).await;
+        // the connection is set up over a working link
+        clog.lock().unwrap().push(format!("S:1:{}", start.elapsed().as_millis()));
+        let warm = client.send(&Ask { id: 1, delay_ms: 0 }).await;
+        clog.lock().unwrap().push(format!("D:1:{}:{}", if warm.is_ok() { "r10" } else { "conn" }, start.elapsed().as_millis()));
+        let id = 2u64;
+        let c2 = client.clone();
+        let l2 = clog.clone();
+        let task = tokio::spawn(async move {
+            l2.lock().unwrap().push(format!("S:{}:{}", id, start.elapsed().as_millis()));
+            let res = tokio::time::timeout(Duration::from_secs(30), c2.send(&Fetch { id, size })).await;
+            let out = match res {
+                Err(_) => "other".to_string(),          // still pending: neither a reply nor an error
+                Ok(Ok(reply)) => if reply.len() == size as usize && reply.iter().all(|b| *b == id as u8) { format!("r{}", id * 7 + 3) } else { "invalid".to_string() },
+                Ok(Err(st)) => match st.code {
+                    ErrorCode::ConnectionError => "conn".to_string(),
+                    ErrorCode::Timeout => "timeout".to_string(),
+                    ErrorCode::InvalidPayload => "invalid".to_string(),
+                    _ => "other".to_string(),
+                },
+            };
+            l2.lock().unwrap().push(format!("D:{}:{}:{}", id, out, start.elapsed().as_millis()));
+        });
+        if fault != '-' {
+            tokio::time::sleep(Duration::from_millis(fault_at)).await;
+            match fault {
+                'H' => turmoil::hold("client0", "server"),
+                'P' => turmoil::partition("client0", "server"),
+                _ => {},
+            }
+        }
+        let _ = task.await;
+        Ok(())
+    });
+    let res = sim.run();
+    let events = log.lock().unwrap().clone();
+    let status = if res.is_ok() { "done" } else { "simerr" };
+    format!("trace {} timeout={} {}", status, timeout_ms, if events.is_empty() { "-".to_string() } else { events.join(" ") })
 }
 
 fn lcg(s: &mut u64) -> u64 {
@@ -133,6 +229,7 @@ fn run(t: &[&str]) -> String {
                 let concurrent = lcg(&mut s) % 3 == 0;
                 tokio::time::sleep(Duration::from_millis(gap)).await;
                 let client = client.clone();
+                let plog = clog.clone();
                 let clog = clog.clone();
                 let fut = async move {
                     clog.lock().unwrap().push(format!("S:{}:{}", id, start.elapsed().as_millis()));
@@ -155,7 +252,11 @@ fn run(t: &[&str]) -> String {
                     handles.push(tokio::spawn(fut));
                 } else {
                     // without a client timeout a held link would block for ever: bound the wait of the harness
-                    let _ = tokio::time::timeout(Duration::from_secs(30), fut).await;
+                    let pending = tokio::time::timeout(Duration::from_secs(30), fut).await.is_err();
+                    if pending && timeout_ms > 0 {
+                        // a client WITH a timeout that is still waiting: neither a reply nor an error
+                        plog.lock().unwrap().push(format!("D:{}:other:{}", id, start.elapsed().as_millis()));
+                    }
                 }
             }
             for h in handles {
@@ -188,6 +289,10 @@ fn main() {
             "end" => writeln!(out, "end").unwrap(),
             "run" => {
                 let r = std::panic::catch_unwind(|| run(&toks)).unwrap_or_else(|_| "panic".to_string());
+                writeln!(out, "{}", r).unwrap();
+            },
+            "runbig" => {
+                let r = std::panic::catch_unwind(|| runbig(&toks)).unwrap_or_else(|_| "panic".to_string());
                 writeln!(out, "{}", r).unwrap();
             },
             _ => writeln!(out, "bad-op").unwrap(),
